@@ -223,3 +223,6 @@ func (p *bufPipeEnd) SetDeadline(t time.Time) error {
 }
 func (p *bufPipeEnd) SetReadDeadline(t time.Time) error  { p.readDeadline.set(t); return nil }
 func (p *bufPipeEnd) SetWriteDeadline(t time.Time) error { p.writeDeadline.set(t); return nil }
+
+// NewPipe returns the two ends of a buffered in-memory connection (see bufPipe).
+func NewPipe() (net.Conn, net.Conn) { return newBufPipe() }
